@@ -44,13 +44,21 @@ TraceEnd == IsEvent("end") /\ (IF ~failed /\ S.pend = <<>> /\ Broken(S) # <<>> T
 TracePanic == IsEvent("panic") /\ (IF failed THEN Reject(<<>>) ELSE Reject(<<"Panic">>))
 
 ToSet(s) == {s[i] : i \in 1..Len(s)}
+\* the state after an operation the muxer model did not queue: the file system does what was observed, and the
+\* properties are evaluated on that (so that e.g. a playlist written in place is refused as not well-formed)
+Generic(e) ==
+  LET had == IF e.k = "ts" /\ e.t \in DOMAIN S.tsf THEN Len(S.tsf[e.t].g) ELSE 0
+      obs == [o |-> e.o, k |-> e.k, t |-> e.t, p |-> e.p, to |-> e.to,
+              g |-> IF e.k = "ts" /\ e.o = "write" /\ Len(e.seg.g) >= had THEN SubSeq(e.seg.g, had + 1, Len(e.seg.g)) ELSE <<>>,
+              c |-> e.pl, ap |-> FALSE]
+  IN Apply(S, obs, 0 - 1)
 TraceOp ==
   /\ IsEvent("op")
   /\ LET e == Trace[l] IN
      IF failed THEN Reject(<<>>)
      ELSE IF e.o = "read" /\ (S.pend = <<>> \/ OpId(Head(S.pend)) # [o |-> e.o, k |-> e.k, t |-> e.t, p |-> e.p, to |-> e.to])
        THEN Accepting(S)       \* reading changes nothing
-     ELSE IF S.pend = <<>> THEN Reject(<<"Op:unexpected:" \o e.o \o ":" \o e.k>>)
+     ELSE IF S.pend = <<>> THEN Reject(Broken(Generic(e)) \o <<"Op:unexpected:" \o e.o \o ":" \o e.k>>)
      ELSE
        LET op  == Head(S.pend)
            tgt == IF op.k = "pl" /\ op.o = "write" THEN e.pl.target ELSE 0 - 1
@@ -64,7 +72,7 @@ TraceOp ==
                      [] OTHER -> TRUE
            dir == ToSet(e.dts) = DOMAIN s2.tsf /\ ToSet(e.dpl) = DOMAIN s2.plf
        IN IF OpId(op) # [o |-> e.o, k |-> e.k, t |-> e.t, p |-> e.p, to |-> e.to]
-            THEN Reject(<<"Op:mismatch:" \o e.o \o ":" \o e.k \o ":expected:" \o op.o \o ":" \o op.k>>)
+            THEN Reject(Broken(Generic(e)) \o <<"Op:mismatch:" \o e.o \o ":" \o e.k \o ":expected:" \o op.o \o ":" \o op.k>>)
           ELSE IF e.err THEN Reject(<<"Op:error:" \o e.o \o ":" \o e.k>>)
           ELSE IF ~same THEN Reject(<<"Content:" \o e.o \o ":" \o (IF e.k = "ts" THEN "ts" ELSE e.p)>>)
           ELSE IF ~dir THEN Reject(<<"Dir:" \o e.o \o ":" \o e.k>>)
